@@ -14,7 +14,8 @@ Open Scope N_scope.
    asked only through its lower-cased form, up to the relation beq (= equality up to the letter
    case of owner names) and (b) does not depend on the random draws when the answer is not
    weighted; for every way [finish] of adding the request specific parts (id, RD/CD, question,
-   OPT with ECS) that respects beq; for every cache size, WRSTimeout, clock readings, and every
+   OPT with ECS) that respects beq; for every EDNS version test [badvers] answered at once from the
+   request alone (before location lookup and cache); for every cache size, WRSTimeout, clock readings, and every
    history of queries (any requester, type, class, name, letter case, EDNS/ECS), successful and
    failed reloads: every non-weighted query receives, with the cache, a response equivalent to
    the one it receives without it.  [both] pairs the two runs (weighted?, cached, uncached);
@@ -24,24 +25,25 @@ Theorem C12_cached_equals_uncached :
   forall (content body response : Type) (lower : bytes -> bytes) (locate : content -> request -> N)
     (serve_core : content -> key -> bytes -> N -> body) (weightedf refusedf : content -> key -> bool)
     (finish : body -> request -> N -> response)
+    (badvers : request -> bool) (badvers_reply : request -> response)
     (beq : body -> body -> Prop) (req : response -> response -> Prop),
-  (forall b, beq b b) ->
+  (forall b, beq b b) -> (forall a, req a a) ->
   (forall b1 b2 r l, beq b1 b2 -> req (finish b1 r l) (finish b2 r l)) ->
   (forall g k a1 a2 rnd, lower a1 = lower a2 -> beq (serve_core g k a1 rnd) (serve_core g k a2 rnd)) ->
   (forall g k a r1 r2, weightedf g k = false -> serve_core g k a r1 = serve_core g k a r2) ->
   forall cfg rnd' h g,
   hist_ok content lower locate wf_key g h ->
   Forall (fun x => let '(w, a, b) := x in w = false -> req a b)
-         (both content body response lower locate serve_core weightedf refusedf finish cfg rnd' g [] h).
+         (both content body response lower locate serve_core weightedf refusedf finish badvers badvers_reply cfg rnd' g [] h).
 Proof. exact cache_invisible. Qed.
 Print Assumptions C12_cached_equals_uncached.
 
 (* the cached responses of [both] are exactly those of the cached run of the model *)
 Theorem C12_both_is_cached_run :
-  forall (content body response : Type) lower locate serve_core weightedf refusedf finish cfg rnd' h g c,
-  map (fun x => snd (fst x)) (both content body response lower locate serve_core weightedf refusedf finish cfg rnd' g c h) =
+  forall (content body response : Type) lower locate serve_core weightedf refusedf finish badvers badvers_reply cfg rnd' h g c,
+  map (fun x => snd (fst x)) (both content body response lower locate serve_core weightedf refusedf finish badvers badvers_reply cfg rnd' g c h) =
   flat_map (fun o => match o with Some (r, _) => [r] | None => [] end)
-           (crun content body response lower locate serve_core weightedf refusedf finish cfg (g, c) h).
+           (crun content body response lower locate serve_core weightedf refusedf finish badvers badvers_reply cfg (g, c) h).
 Proof. intros; apply both_cached. Qed.
 Print Assumptions C12_both_is_cached_run.
 
@@ -52,13 +54,13 @@ Proof. exact key_string_injective. Qed.
 Print Assumptions C12_key_injective.
 
 (* non-vacuity: a concrete serve_core, a history with a first asker in mixed case, a hit that
-   carries this case, another location, a weighted answer, a reload and an expiry *)
+   carries this case, another location, a weighted answer, an unsupported EDNS version on a cached key, a reload and an expiry *)
 Example C12_example :
   map (fun o => match o with Some (r, oc) => Some (fst (fst r), oc) | None => None end)
       (crun N bytes (bytes * N * N) ex_lower (fun _ r => q_from r) ex_core ex_weighted (fun _ _ => false) ex_finish
-            (mkCC true 2 0) (4, []) ex_hist) =
+            (fun r => q_extra r =? 99) (fun r => ([66], q_extra r, 0)) (mkCC true 2 0) (4, []) ex_hist) =
   [Some ([87; 119; 87; 4], OMiss); Some ([87; 119; 87; 4], OHit); Some ([119; 119; 119; 4], OMiss);
-   Some ([119; 4; 4], OMiss); None; Some ([119; 119; 119; 5], OMiss); Some ([119; 119; 119; 5], OExpired)] /\
+   Some ([119; 4; 4], OMiss); Some ([66], OOff); None; Some ([119; 119; 119; 5], OMiss); Some ([119; 119; 119; 5], OExpired)] /\
   hist_ok N ex_lower (fun _ r => q_from r) wf_key 4 ex_hist.
 Proof. exact cache_example. Qed.
 Print Assumptions C12_example.
